@@ -76,9 +76,13 @@ def gen_update_opts(rng, info, prior_kind, allow_sub=True, api=None):
         u['profile'] = rng.choice(['default', 'ebuild', 'old-ebuild'])
     if prior_kind == 'absent':
         u['create'] = True
-    elif allow_sub and rng.random() < 0.25:
+    elif allow_sub and rng.random() < 0.3:
         subs = [d for d in info['dirs'] if d and not any(c.startswith('.') for c in d.split('/'))]
-        if subs:
+        # prefer directories that have string-prefix look-alike siblings
+        la = [d for d in subs if any(o != d and o.startswith(d) and not o.startswith(d + '/') for o in info['dirs'] + info['files'])]
+        if la and rng.random() < 0.7:
+            u['path'] = rng.choice(la)
+        elif subs:
             u['path'] = rng.choice(subs)
     if u['api'] == 'cli':
         u.pop('sort', None)      # no CLI flag for it
@@ -87,7 +91,7 @@ def gen_update_opts(rng, info, prior_kind, allow_sub=True, api=None):
 
 def gen_history(rng, cfg=None):
     cfg = cfg or {}
-    g = GT.gen_tree(rng, dict({'top': 'Manifest', 'p_conflict': 0.0, 'p_dup': 0.15,
+    g = GT.gen_tree(rng, dict({'top': 'Manifest', 'p_conflict': 0.0, 'p_dup': 0.2,
                                'p_multi': cfg.get('p_multi', 0.15)}, **cfg.get('tree', {})))
     info = g['info']
     prior = rng.choice(['absent', 'exact', 'stale', 'stale', 'stale', 'stale'])
@@ -99,6 +103,14 @@ def gen_history(rng, cfg=None):
     else:
         if prior == 'stale':
             first_edits = gen_edits(rng, info, rng.choice([1, 2, 3, 4]))
+        # partially refreshed prior state: after the edits some Manifests are
+        # rewritten with current values while others stay stale (e.g. a file listed
+        # in parent and child where only one of the two entries is stale)
+        if prior == 'stale' and manifests and rng.random() < 0.35:
+            ms = list(manifests)
+            rng.shuffle(ms)
+            for m in ms[:rng.choice([1, 1, 2])]:
+                first_edits = first_edits + [{'m': 'manifest', 'p': m['p'], 'entries': m['entries']}]
         # unregister a sub-Manifest (valid, no longer referenced)
         if rng.random() < 0.2:
             for m in manifests:
